@@ -104,6 +104,11 @@ void judge(const sim::Json& sc, const RunRecord& rec, sim::RunResult& r) {
     r.stats.set("objno_rejected", 1);
   } else if (!delivered) {
     r.stats.set("not_delivered", 1);   // conversion refused this model (diagnosed elsewhere: C09)
+    // ... but the generated files are valid NL in either encoding: the reader itself must never reject them
+    // (the statement quantifies over text and binary input: the selected objective has to arrive from both)
+    if (allout.find("stub.nl:") != std::string::npos)
+      flag("VALID_NL_REJECTED", std::string(sc["nl_binary"].as_bool() ? "binary" : "text") + ":" + cfg, "the NL reader rejected a valid " + std::string(sc["nl_binary"].as_bool() ? "binary" : "text") +
+           " file, nothing reached the solver: " + allout.substr(allout.find("stub.nl:"), 200));
   } else {
     long eff = given ? objno : 1;
     std::vector<int> expect;
